@@ -1,7 +1,7 @@
 (* C01 — the server frames and orders requests exactly as the wire says (framing core). *)
 From Coq Require Import String.
 From Coq Require Import List Strings.Byte NArith ZArith Bool Arith.
-Require Import Bytes Show Tables Codec Chunk ChunkProofs TrailerKeys HeaderNameProofs Range RangeProofs DecProofs UintWrap HeaderScan HeaderScanProofs ReqHead ReqHeadProofs.
+Require Import Bytes Show Tables Codec Chunk ChunkProofs TrailerKeys HeaderNameProofs Range RangeProofs DecProofs UintWrap HeaderScan HeaderScanProofs ReqHead ReqHeadProofs RespFrame RespHead RespHeadProofs.
 Import ListNotations.
 
 (* Chunked framing: for EVERY list of non-empty chunks (any sizes below 16^15, any contents —
@@ -93,4 +93,20 @@ Example C01_nonvacuous :
   enchunk [B "ab"; B "0" ++ CRLF ++ CRLF ++ B "GET /evil"] = B "2" ++ CRLF ++ B "ab" ++ CRLF ++ B "e" ++ CRLF ++ B "0" ++ CRLF ++ CRLF ++ B "GET /evil" ++ CRLF ++ B "0" ++ CRLF
   /\ ci_compare (B "Content" ++ [x0d] ++ B "Length") (B "Content-Length") = false
   /\ ci_compare (B "cOnTeNt-lEnGtH") (B "Content-Length") = true.
+Proof. repeat split; vm_compute; reflexivity. Qed.
+
+(* Connection persistence as the server takes it from a request head (RequestHeader.ConnectionClose, compared with
+   the code by c01.reqhead): a final "Connection: close" (any letter case of the name) ends the connection after
+   this request whatever came before, and a request of another version than HTTP/1.1 without a keep-alive token
+   does too - EVERY field list. *)
+Theorem C01_final_connection_close_closes : forall h11 fs name,
+  name <> [] -> ci_compare name bytestr_StrConnection = true ->
+  req_close h11 (fs ++ [(name, bytestr_StrClose)]) = true.
+Proof. exact req_close_last_field. Qed.
+Theorem C01_http10_without_keep_alive_closes : forall fs, no_keep_alive fs -> req_close false fs = true.
+Proof. exact req_close_http10. Qed.
+Print Assumptions C01_final_connection_close_closes.
+Example C01_persistence_nonvacuous :
+  req_close true [(B "Connection", B "keep-alive")] = false /\ req_close false [(B "Connection", B "x, Keep-Alive")] = false /\
+  req_close true [] = false /\ req_close false [] = true.
 Proof. repeat split; vm_compute; reflexivity. Qed.
